@@ -42,9 +42,16 @@ Property clauses (the only sources of a VIOLATION), per the statement of C20:
   C20_AgreesWithInProcess     agree_ok for every k >= 1
   C20_HeaderTimeFirst         CreateCsvString(): 't' first, every non-lagged variable of the block once,
                               no column twice
+Names and lags (second follow-up): the grammar also uses variable names that are locals of the generated
+RunOneStep / Iterator (err, cnt = 500.0, new_vector, in_vec - the loop state must stay the module's own:
+C20_LoopStateOwn), a lag of a lagged variable (LAG2_y = LAG_y(k-1)), and names of attributes / methods of the
+generated class (STEP, main, orig_vector, MaxIterations): such a block must be refused by the generator's
+constructor (it is then not an accepted block); if it is accepted its module is judged like any other.
+
 Readings (the weaker one where the statement leaves a choice):
-  * blocks are well-posed: exogenous lists have at least MaxTime+1 values, lags refer to endogenous
-    variables, the system contracts (factor <= 0.5) - divergence and too-short lists are C02/C10/C11;
+  * blocks are well-posed: exogenous values are LISTS ("exogenous lists" in the quantifier; the scalar
+    shorthand  G = 20.  of the in-process solver is not generated) with at least MaxTime+1 values, the
+    system contracts (factor <= 0.5) - divergence and too-short lists are C02/C10/C11;
   * "the stated tolerance": the bound B above (the generated module stops on the ABSOLUTE error sum, the
     in-process solver on a relative one; both are far inside B);
   * extra columns in the table (e.g. a step-index series) are allowed but, like every column, at most
@@ -63,11 +70,17 @@ from fractions import Fraction as F
 
 from harness import core
 
-VARS = ['x', 'y', 'z']
+NAMESETS = [['x', 'y', 'z', 'c0'],                               # = NameSets of MC_Codegen
+            ['err', 'new_vector', 'in_vec', 'cnt'],
+            ['STEP', 'main', 'orig_vector', 'MaxIterations']]
+PARAM_VALUE = [2, 500, 2]                                         # the parameter line: c0 = 2.0 / cnt = 500.0 / ...
+LOOP_NAMES = ('err', 'cnt')                                       # = LoopNames of Codegen
+OWN_NAMES = ('STEP', 'MaxTime', 'MaxIterations', 'Err_Tolerance', 'PrintIterations', 'VariableList', 'main',
+             'RunOneStep', 'Iterator', 'CalcError', 'WriteCSV', 'CreateCsvString', 'orig_vector')   # = ModuleOwnNames
 MATH_NAMES = ['sqrt', 'exp', 'log', 'floor', 'pi']          # = MathNames of MC_Codegen / MC_Codegen_Trace.cfg
 RESERVED_ATTRS = ('MaxIterations', 'MaxTime', 'STEP', 'PrintIterations', 'Err_Tolerance', 'VariableList')
 NAME_FIELDS = ('endo', 'lagged', 'exos', 'ics', 'maxTime', 'foundT')
-GRAMMAR_FIELDS = ('n', 'A', 'lag', 'ic', 'exo', 'cst', 'userT', 'useT', 'tol', 'maxTime')
+GRAMMAR_FIELDS = ('n', 'A', 'lag', 'ic', 'exo', 'cst', 'userT', 'useT', 'tol', 'maxTime', 'nm')
 REGEN_FRACTION_QUICK = 1.0 / 3.0
 
 
@@ -79,7 +92,9 @@ def system(block):
     """The block as an affine system: {var: {'same': {name: coef}, 'lag': {of: coef}, 'const': c, 'k': c}}
     (insertion order = text order), the lag names, the supplied exogenous paths and their source text."""
     n, A, mt = block['n'], block['A'], block['maxTime']
-    names = VARS[:n]
+    nm = block.get('nm', 0)
+    names = NAMESETS[nm][:n]
+    param = NAMESETS[nm][3]
     last = names[-1]
     eqs = {}
     for i, v in enumerate(names):
@@ -88,12 +103,14 @@ def system(block):
             if j != i and A[i][j] != 0:
                 e['same'][u] = F(A[i][j], 4)
         if i == 0:
-            if block['lag']:
+            if block['lag'] in (1, 2):
                 e['lag'][last] = F(1, 2) if block['lag'] == 1 else F(1)
+            elif block['lag'] == 3:
+                e['lag']['LAG_' + last] = F(1, 2)          # rendered as LAG2_<last> = LAG_<last>(k-1)
             if block['exo']:
                 e['same']['G'] = F(1)
             if block['cst'] == 2:
-                e['same']['c0'] = F(1)
+                e['same'][param] = F(1)
             else:
                 e['const'] = F(2)
                 e['const_text'] = 'sqrt(4.0)' if block['cst'] == 1 else None
@@ -103,7 +120,11 @@ def system(block):
             e['same']['t'] = F(1, 4)
         eqs[v] = e
     if block['cst'] == 2:
-        eqs['c0'] = {'same': {}, 'lag': {}, 'const': F(2), 'k': F(0), 'const_text': None}
+        eqs[param] = {'same': {}, 'lag': {}, 'const': F(PARAM_VALUE[nm]), 'k': F(0), 'const_text': None}
+    if block['lag'] == 3:
+        # the lagged variable LAG_<last> is itself lagged: its own history matters (LAG_<last>(0) = 0)
+        eqs['LAG_' + last] = {'same': {}, 'lag': {last: F(1)}, 'const': F(0), 'k': F(0), 'const_text': None,
+                              'derived': True}
     if block['userT'] == 'endo':
         eqs['t'] = {'same': {}, 'lag': {'t': F(1)}, 'const': F(1), 'k': F(0), 'const_text': None}
     elif block['userT'] == 'none':
@@ -111,6 +132,8 @@ def system(block):
     lagname = {}
     if block['lag']:
         lagname[last] = 'LAG_' + last
+    if block['lag'] == 3:
+        lagname['LAG_' + last] = 'LAG2_' + last
     if block['userT'] == 'endo':
         lagname['t'] = 't_minus_1'
     paths, path_text = {}, {}
@@ -156,14 +179,16 @@ def render(block):
     sysm = system(block)
     lines = []
     for v, e in sysm['eqs'].items():
-        if e.get('injected'):
-            continue            # 't = k' is injected by the parser
+        if e.get('injected') or e.get('derived'):
+            continue            # 't = k' is injected by the parser; lag lines are written below
         if v == 't':
             continue
         lines.append('%s = %s' % (v, _rhs(e, sysm['lagname'])))
     if block['lag']:
-        spelling = '(k-1)' if block['lag'] == 1 else '(t-1)'
+        spelling = '(t-1)' if block['lag'] == 2 else '(k-1)'
         lines.append('%s = %s%s' % (sysm['lagname'][sysm['last']], sysm['last'], spelling))
+    if block['lag'] == 3:
+        lines.append('LAG2_%s = LAG_%s(k-1)' % (sysm['last'], sysm['last']))
     if block['userT'] == 'endo':
         lines.append('t = t_minus_1 + 1.0')
         lines.append('t_minus_1 = t(k-1)')
@@ -201,7 +226,7 @@ def check_grammar_binding(block):
     want = {e['name']: sorted(set(e['reads'])) for e in block['endo']}
     got = {}
     for v, e in sysm['eqs'].items():
-        if e.get('injected'):
+        if e.get('injected') or e.get('derived'):
             continue
         text = 't_minus_1 + 1.0' if v == 't' else _rhs(e, sysm['lagname'])
         got[v] = names_in(text)
@@ -211,6 +236,8 @@ def check_grammar_binding(block):
     lag_got = []
     if block['lag']:
         lag_got.append([sysm['lagname'][sysm['last']], sysm['last']])
+    if block['lag'] == 3:
+        lag_got.append(['LAG2_' + sysm['last'], 'LAG_' + sysm['last']])
     if block['userT'] == 'endo':
         lag_got.append(['t_minus_1', 't'])
     exo_want = [[d['name'], d['len']] for d in block['exos']]
@@ -240,12 +267,16 @@ def _index_kind(node):
 
 
 EMPTY_SECTIONS = {'decl': [], 'pack': [], 'orig': [], 'iterUnpack': [], 'iterBinds': [], 'iterReads': [],
-                  'unpack': [], 'varList': []}
+                  'unpack': [], 'varList': [], 'loopAfterPack': True}
+
+
+def _empty_sections():
+    return {k: (list(v) if isinstance(v, list) else v) for k, v in EMPTY_SECTIONS.items()}
 
 
 def sections_of(path):
     """Name sets of the sections of the generated module, read off its syntax tree."""
-    out = {k: list(v) for k, v in EMPTY_SECTIONS.items()}
+    out = _empty_sections()
     try:
         with open(path) as f:
             tree = ast.parse(f.read())
@@ -275,9 +306,15 @@ def sections_of(path):
             out['iterBinds'].append('<return-mismatch>')
         stage = 'pack'
         pending = {}
-        for st in fn['RunOneStep'].body:
+        loop_init_at, last_pack_at = [], -1
+        for pos_in_body, st in enumerate(fn['RunOneStep'].body):
             if isinstance(st, ast.Assign) and isinstance(st.targets[0], ast.Name):
                 nm = st.targets[0].id
+                if nm in LOOP_NAMES and isinstance(st.value, ast.Constant):
+                    loop_init_at.append(pos_in_body)          # err = 1. / cnt = 0
+                if stage == 'pack' and (nm == 'orig_vector' or (isinstance(st.value, ast.Subscript)
+                                                                and _is_self_attr(st.value.value))):
+                    last_pack_at = pos_in_body
                 if nm == 'orig_vector' and stage == 'pack':
                     v = st.value
                     out['orig'] = [e.id for e in v.elts] if isinstance(v, ast.Tuple) else [getattr(v, 'id', '?')]
@@ -295,8 +332,10 @@ def sections_of(path):
                 arg = st.value.args[0] if st.value.args else None
                 pos = pending.get(arg.id, -1) if isinstance(arg, ast.Name) else -1
                 out['unpack'].append({'name': st.value.func.value.attr, 'pos': pos})
+        # the loop state is initialised after every variable has been packed into locals
+        out['loopAfterPack'] = bool(loop_init_at) and min(loop_init_at) > last_pack_at
     except Exception:
-        return {k: list(v) for k, v in EMPTY_SECTIONS.items()}, False
+        return _empty_sections(), False
     return out, True
 
 
@@ -330,6 +369,14 @@ def numeric_flags(block, mod_series, in_series, steps_ok):
     sysm = system(block)
     eqs, paths = sysm['eqs'], sysm['paths']
     endo = list(eqs.keys())
+    for series in (mod_series, in_series):
+        if series is None:
+            continue
+        for v, e in eqs.items():          # a lagged variable's history, when the solver does not expose it
+            if e.get('derived') and v not in series:
+                of = list(e['lag'])[0]
+                if of in series:
+                    series[v] = [0.0] + list(series[of][:-1])
     tol = tolerance(block)
     coefs = [abs(c) for e in eqs.values() for c in list(e['same'].values()) + list(e['lag'].values()) + [e['k']]]
     lam = max(coefs) if coefs else F(0)
@@ -399,6 +446,11 @@ def _exc(e):
     return '%s: %s' % (type(e).__name__, str(e)[:200])
 
 
+def _step_of(obj):
+    v = getattr(obj, 'STEP', -1)
+    return int(v) if isinstance(v, int) and not isinstance(v, bool) else -1
+
+
 def _lens(obj, names):
     out = []
     for nm in names:
@@ -448,7 +500,8 @@ def _one_generation(block, gen, text, path, uid, cache):
     """gen.main(path), then the written module: sections, import, construction, run, table.
     -> (events, info); info['complete'] is True when the module ran to MaxTime without an exception."""
     math_ns = {k: getattr(math, k) for k in dir(math) if not k.startswith('_')}
-    info = {'stage': '', 'exc': '', 'unbound': [], 'series': {}, 'inproc_exc': '', 'flags': {}, 'complete': False,
+    info = {'stage': '', 'exc': '', 'unbound': [], 'loop_captured': [], 'own_captured': [], 'chained_lags': [],
+            'series': {}, 'inproc_exc': '', 'flags': {}, 'complete': False,
             'header': None, 'csv_exc': ''}
     events = []
     # --- GenerateEquations / GenerateFile (one call of main())
@@ -461,7 +514,7 @@ def _one_generation(block, gen, text, path, uid, cache):
     if not gen_ok:
         events.append({'ev': 'GenerateEquations', 'ok': False, 'exos': [], 'all': [], 'nonLagged': [], 'eqReads': []})
         gf = {'ev': 'GenerateFile', 'ok': False}
-        gf.update({k: list(v) for k, v in EMPTY_SECTIONS.items()})
+        gf.update(_empty_sections())
         events.append(gf)
         return events, info
     events.append({'ev': 'GenerateEquations', 'ok': True,
@@ -475,6 +528,11 @@ def _one_generation(block, gen, text, path, uid, cache):
     events.append(gf)
     info['unbound'] = sorted({nm for reads in sec['iterReads'] for nm in reads
                               if nm not in sec['iterUnpack'] and nm not in math_ns})
+    packed = [p['name'] for p in sec['pack']]
+    info['loop_captured'] = [] if sec['loopAfterPack'] else sorted(set(packed) & set(LOOP_NAMES))
+    info['own_captured'] = sorted(set(packed) & set(OWN_NAMES))
+    info['chained_lags'] = sorted({p['series'] for p in sec['pack'] if p['idx'] == 'STEP-1'} &
+                                  {str(nm) for nm, dummy in gen.Lagged})
 
     # --- Import: exec the file under a unique module name, construct SFCModel
     obj = None
@@ -513,17 +571,17 @@ def _one_generation(block, gen, text, path, uid, cache):
         try:
             original()
         except BaseException as e:
-            steps.append({'ok': False, 'exc': _exc(e), 'step': int(getattr(obj, 'STEP', -1)),
+            steps.append({'ok': False, 'exc': _exc(e), 'step': _step_of(obj),
                           'lens': _lens(obj, series_names)})
             raise
-        steps.append({'ok': True, 'exc': '', 'step': int(getattr(obj, 'STEP', -1)), 'lens': _lens(obj, series_names)})
+        steps.append({'ok': True, 'exc': '', 'step': _step_of(obj), 'lens': _lens(obj, series_names)})
 
     obj.RunOneStep = observed_step
     try:
         obj.main()
     except Exception as e:
         if not steps or steps[-1]['ok']:
-            steps.append({'ok': False, 'exc': _exc(e), 'step': int(getattr(obj, 'STEP', -1)),
+            steps.append({'ok': False, 'exc': _exc(e), 'step': _step_of(obj),
                           'lens': _lens(obj, series_names)})
         info.update(stage='run', exc=steps[-1]['exc'])
     steps_ok = 0
@@ -643,13 +701,27 @@ def execute_all(blocks, scratch, regen):
 
 def _signature_of_generation(clause, block, want, endo, info):
     """What is wrong for this clause with the module of one generation (None: nothing)."""
+    root = None
+    if info['own_captured']:
+        root = 'block-variable-captures-name-of-generated-class'
+    elif info['loop_captured']:
+        root = 'loop-state-captured-by-block-variable'
     if clause == 'C20_ImportAndRun':
         if not info['exc']:
             return None
+        if root:
+            return root
         m = re.match(r"NameError: name '(\w+)' is not defined", info['exc'])
         if m and info['stage'] == 'run' and m.group(1) in info['unbound']:
             return 'generated-module-never-binds-' + m.group(1)
+        m = re.match(r"AttributeError: 'SFCModel' object has no attribute '(\w+)'", info['exc'])
+        if m and m.group(1) in info['chained_lags']:
+            return 'no-series-for-lagged-variable-that-is-lagged-again'
         return 'raises:%s:%s' % (info['stage'], info['exc'].split(':')[0])
+    if root and clause in ('C20_StepAppendsAll', 'C20_StepSatisfiesEquations', 'C20_AgreesWithInProcess',
+                           'C20_HeaderTimeFirst'):
+        probe = _signature_of_generation(clause, block, want, endo, dict(info, own_captured=[], loop_captured=[]))
+        return root if probe is not None else None
     if clause == 'C20_StepAppendsAll':
         short = sorted(nm for nm in endo if len(info['series'].get(nm, [])) != block['maxTime'] + 1)
         return ('series-without-a-value-per-period:' + ','.join(short)) if short else None
@@ -780,7 +852,10 @@ def run(rep):
     seen = set()
     blocks = []
     for b in core.json_of_printed(res, 'BEH'):
-        if b.get('status') != 'ok' or b.get('steps') != b['block']['maxTime'] or b.get('generations') != 2:
+        if b.get('rejected'):
+            if not set(OWN_NAMES) & {d['name'] for d in b['block']['endo'] + b['block']['lagged'] + b['block']['exos']}:
+                raise core.MachineryError('the model rejects a block without a colliding name %r' % (b,))
+        elif b.get('status') != 'ok' or b.get('steps') != b['block']['maxTime'] or b.get('generations') != 2:
             raise core.MachineryError('the model predicts a failing run for block %r' % (b,))
         k = core.canonical(b['block'])
         if k not in seen:
@@ -789,9 +864,12 @@ def run(rep):
     if not blocks:
         raise core.MachineryError('TLC emitted no behaviours for ' + cfg)
     # smallest blocks first, so that the case stored for a violation is a minimal witness
-    blocks.sort(key=lambda b: (b['n'], b['maxTime'], b['lag'], b['exo'], b['cst'], int(b['useT']), int(b['ic']),
-                               b['tol'], core.canonical(b)))
+    blocks.sort(key=lambda b: (b['nm'], b['n'], b['maxTime'], b['lag'], b['exo'], b['cst'], int(b['useT']),
+                               int(b['ic']), b['tol'], core.canonical(b)))
     rep.extra['blocks_without_user_time'] = sum(1 for b in blocks if b['userT'] == 'none')
+    rep.extra['blocks_with_names_of_generated_locals'] = sum(1 for b in blocks if b['nm'] == 1)
+    rep.extra['blocks_with_names_of_the_generated_class'] = sum(1 for b in blocks if b['nm'] == 2)
+    rep.extra['blocks_with_a_lag_of_a_lagged_variable'] = sum(1 for b in blocks if b['lag'] == 3)
     # regeneration (main() twice on one generator object): every block in the thorough tier, a seeded third
     # of the blocks in the quick tier
     rng = random.Random(rep.seed)
